@@ -354,8 +354,8 @@ class AssocSym(Sym):
         return Sym.exec_search_loop(self, s, st)
 
 
-def latest_binding_rule(ck, F):
-    R = ck.rule('C16.latest-binding', 'a general substitution that was empty, then given the bindings a -> x and b -> y (in that order), answers a '
+def latest_binding_rule(ck, F, prefix='C16'):
+    R = ck.rule(f'{prefix}.latest-binding', 'a general substitution that was empty, then given the bindings a -> x and b -> y (in that order), answers a '
                 'query q with y when q is b, else with x when q is a, else with q itself -- on every path, for every way the five nodes '
                 'may coincide (b may be a: the later binding wins; y may be b itself: an identity binding still hides the earlier one).  '
                 'Evaluated with models of std::map and std::forward_list, so the judgement does not depend on which of them holds the table', floor=3)
